@@ -105,7 +105,7 @@ def make_config(struct, rnd, units=None):
     ua.setdefault("ss", "km/s")
     ua["maxK"] = maxK
     if g["kkind"] == "default":
-        f = {"d": Fraction(1), "oct": Fraction(1, 4), "suboct": Fraction(4)}[ua["pprior"]]
+        f = {"d": Fraction(1), "oct": Fraction(1, 4), "suboct": Fraction(4)}.get(ua["pprior"], Fraction(1))
         rd = Fraction(r23[0], r23[1]) * f
         g["r23dev"] = [rd.numerator, rd.denominator]
     return g, ua
@@ -117,7 +117,7 @@ def make_config_units(g, ua):
     ua = dict(ua)
     ua.setdefault("maxK", 500.0 if g["maxKsq"][0] >= 250000 else math.sqrt(g["maxKsq"][0] / g["maxKsq"][1]))
     if g["kkind"] == "default":
-        f = {"d": Fraction(1), "oct": Fraction(1, 4), "suboct": Fraction(4)}[ua["pprior"]]
+        f = {"d": Fraction(1), "oct": Fraction(1, 4), "suboct": Fraction(4)}.get(ua["pprior"], Fraction(1))
         rd = Fraction(*g["r23"]) * f
         g["r23dev"] = [rd.numerator, rd.denominator]
     else:
@@ -129,7 +129,7 @@ def random_units(rnd, L, lattice_period_units=True):
     return {"data": rnd.choice(["km/s", "m/s"]), "src_units": [rnd.choice(["km/s", "m/s"]) for _ in range(3)],
             "kprior": rnd.choice(["km/s", "m/s"]),
             "lin": [rnd.choice(["km/s", "m/s"]) for _ in range(L - 1)], "slope_t": rnd.choice(["d", "yr"]),
-            "pprior": rnd.choice(["d", "oct", "suboct"]), "p0": rnd.choice(["d", "yr", "oct"]),
+            "pprior": rnd.choice(["d", "oct", "suboct", "yr", "h"]), "p0": rnd.choice(["d", "yr", "oct", "h"]),
             "sP": rnd.choice(["d", "yr"]), "sang": rnd.choice(["rad", "deg"]), "ss": rnd.choice(["km/s", "m/s"]),
             "t_scale": rnd.choice(["tcb", "utc", "tdb"]), "tref_scale": rnd.choice(["tcb", "utc", "tt"]),
             # how the prior object is made: parameter by parameter, or through JokerPrior.default(sigma_K0=, P0=, sigma_v=, s=)
@@ -645,8 +645,8 @@ def realize_mcmc(case):
 
 # ----------------------------------------------------------------------------------------------- off the lattice
 def random_real_config(rnd):
-    """a random valid problem over the reals, inside the classes where no known finding applies (period prior in days; custom K
-    prior only without offsets; surveys time-disjoint in list order) - see harness/gauss_oracle.py for the fields"""
+    """a random valid problem over the reals (surveys time-disjoint in list order: the one class an open finding - C08's label
+    order - still excludes) - see harness/gauss_oracle.py for the fields"""
     poly = rnd.choice([1, 1, 2, 3])
     noff = rnd.choice([0, 0, 1, 2])
     nper = [rnd.randint(2, 9) for _ in range(noff + 1)]
@@ -661,7 +661,7 @@ def random_real_config(rnd):
     N = len(t)
     P = math.exp(rnd.uniform(math.log(1.5), math.log(400.0)))
     e = rnd.choice([0.0, rnd.uniform(0, 0.6), rnd.uniform(0.6, 0.95), rnd.uniform(0.95, 0.99)])     # the property's range: 0 <= e <= 0.99
-    kkind = "custom" if (noff == 0 and rnd.random() < 0.3) else "default"
+    kkind = "custom" if rnd.random() < 0.3 else "default"
     c = {"t": t, "lab": lab, "y": [rnd.gauss(0, 20.0) for _ in range(N)], "sig2": [rnd.uniform(0.05, 4.0) ** 2 for _ in range(N)],
          "s2": rnd.choice([0.0, rnd.uniform(0.1, 3.0) ** 2]), "P": P, "e": e, "omega": rnd.uniform(0, 2 * math.pi),
          "M0": rnd.uniform(0, 2 * math.pi), "poly": poly, "noff": noff, "kkind": kkind, "sK0sq": rnd.uniform(5.0, 60.0) ** 2,
@@ -700,7 +700,8 @@ def build_real(c, ua):
     slot_names = ["v0"] + ["dv0_%d" % j for j in range(1, noff + 1)] + ["v%d" % i for i in range(1, poly)]
     tu = U(ua["slope_t"])
     with pm.Model() as model:
-        P = xu.with_unit(pm.Uniform("P", np.float64(0.01), np.float64(1000.0)), u.day)
+        pu = U(ua.get("pprior", "d"))
+        P = xu.with_unit(pm.Uniform("P", np.float64((0.01 * u.day).to_value(pu)), np.float64((1000.0 * u.day).to_value(pu))), pu)
         e = xu.with_unit(pm.Uniform("e", np.float64(0.0), np.float64(0.99)), u.one)
         om = xu.with_unit(pm.Uniform("omega", np.float64(0.0), np.float64(2 * np.pi)), u.rad)
         M0 = xu.with_unit(pm.Uniform("M0", np.float64(0.0), np.float64(2 * np.pi)), u.rad)
@@ -750,7 +751,7 @@ def realize_real(case):
     c = random_real_config(rnd)
     L_ = 1 + c["poly"] + c["noff"]
     ua = random_units(rnd, L_)
-    ua["pprior"] = "d"
+    ua["pprior"] = rnd.choice(["d", "yr", "h", "oct"])           # the period prior in any time unit
     out = {"id": case["id"], "seed": case["seed"], "c": {k: (v if not isinstance(v, list) or len(v) <= 12 else v[:12]) for k, v in c.items()},
            "ok": False}
     try:
@@ -771,7 +772,7 @@ def realize_real(case):
                    dev_paths=abs(ll_mem - ll_file) / max(1.0, abs(want)))
         capped = c["kkind"] == "default" and c["sK0sq"] * (c["P"] / c["P0"]) ** (-2.0 / 3.0) / (1 - c["e"] ** 2) > c["maxKsq"]
         out["capped"] = bool(capped)
-        if not capped:
+        if True:      # capped or not: the draw path uses the same K variance as the marginal path
             sg = ScriptedGen(ratio)
             helper = _spy_helper(joker, data, sg)
             chunk, _ = smp.pack(units=helper.internal_units, names=helper.packed_order)
@@ -874,7 +875,7 @@ def realize_mcmc_real(case):
     c = random_real_config(rnd)
     L_ = 1 + c["poly"] + c["noff"]
     ua = random_units(rnd, L_)
-    ua["pprior"] = "d"
+    ua["pprior"] = rnd.choice(["d", "yr", "h", "oct"])
     out = {"id": case["id"], "seed": case["seed"], "c": {k: (v if not isinstance(v, list) or len(v) <= 12 else v[:12]) for k, v in c.items()},
            "ok": False}
     try:
